@@ -56,6 +56,9 @@ def gen_name(rng):
         return rng.choice(["add", "get_data", "x", "Method9", "ping", "resolve", "call", "result"])
     if k < 0.7:
         return ".".join(rng.choice(["ns", "a", "b", "sub", "x1", "Method9"]) for _ in range(rng.randint(2, 3)))
+    if k < 0.73:
+        # a function registered under a dotted name with a private-looking later component
+        return rng.choice(["tools", "svc"]) + "." + rng.choice(["_double", "_x", "_impl.run"])
     if k < 0.76:
         # later segments named like attributes a method-proxy object might have
         return rng.choice(["user", "mail", "svc"]) + "." + ".".join(
@@ -106,7 +109,7 @@ def gen_c01(rng):
                     name = gen_name(rng)
                     # one callable per call: unique names attribute every execution
                     name = name + ("" if rng.random() < 0.5 else "_") + tag if "." not in name else name + "." + tag
-                    if name not in used and not name.startswith("_") and not any(p.startswith("_") for p in name.split(".")):
+                    if name not in used and not name.startswith("_") and not any(p.startswith("__") for p in name.split(".")):
                         used.add(name)
                         break
                 spec = {"kind": "const", "ret": gen_value(rng)}
@@ -115,8 +118,8 @@ def gen_c01(rng):
                 if rng.random() < 0.25:
                     # several callables return the very same container object (a shared table)
                     spec = {"kind": "shared", "ret": shared_table}
-                if "." in name and rng.random() < 0.5:
-                    instance[name] = spec
+                if "." in name and rng.random() < 0.5 and not any(p.startswith("_") for p in name.split(".")):
+                    instance[name] = spec  # (an instance's attributes beginning with "_" are not exported, by design)
                 else:
                     methods[name] = spec
                 if rng.random() < 0.5:
@@ -754,13 +757,13 @@ def gen_c13_small(rng):
     """Few short concurrent dispatcher threads: every pre-emption point is likely to be tried."""
     sv = {"kind": "dispatcher", "family": "tcp", "version": rng.choice([2.0, 2.0, 1.0]), "handlers": rng.random() < 0.3}
     methods = {"echo": {"kind": "echo"}, "fail": {"kind": "fail"}, "sub": {"kind": "sub"},
-               "bad": {"kind": rng.choice(["baddump", "baddump-lookup", "selfref"])}, "rej": {"kind": "subrejected"}, "inf": {"kind": "inf"}}
+               "bad": {"kind": rng.choice(["baddump", "baddump-lookup", "selfref"])}, "rej": {"kind": "subrejected"}, "inf": {"kind": "inf"}, "mb": {"kind": "mainbean"}}
     clients = []
     for ci in range(rng.randint(2, 3)):
         ops = []
         for oi in range(rng.randint(1, 2)):
             tok = "c%do%d" % (ci, oi)
-            m = rng.choice(["echo", "echo", "fail", "sub", "nope", "bad", "rej", "sub", "rpc.nope", "inf"])
+            m = rng.choice(["echo", "echo", "fail", "sub", "nope", "bad", "rej", "sub", "rpc.nope", "inf", "mb"])
             ops.append(["raw", rng.choice([
                 '{"method": "%s", "params": ["%s"], "id": "%s"}' % (m, tok, tok),
                 '{"method": "%s", "params": ["%s"], "id": "%s"}' % (m, tok, tok),
@@ -797,7 +800,8 @@ def gen_c13_full(rng):
                "bad": {"kind": rng.choice(["baddump", "baddump-lookup", "selfref"])},
                "err": {"kind": "sharedfault"}, "rej": {"kind": "subrejected"}, "quit": {"kind": "exit"}}
     methods["inf"] = {"kind": "inf"}
-    names = ["echo", "echo", "fail", "nope", "two", "slow", "slow", "fault", "sub", "bad", "err", "rej", "sub", "rpc.nope", "rpc.echo", "inf"]
+    methods["mb"] = {"kind": "mainbean"}
+    names = ["echo", "echo", "fail", "nope", "two", "slow", "slow", "fault", "sub", "bad", "err", "rej", "sub", "rpc.nope", "rpc.echo", "inf", "mb"]
     if not sv.get("custom_dispatch"):
         names.append("quit")  # sys.exit() inside a method: an error reply like any other (default dispatch only)
     sv["handlers"] = rng.random() < 0.4
